@@ -1,0 +1,61 @@
+//go:build verif
+
+// Contracts for package alephium, checked by /verif (govc). Comment-only file: with the
+// verif tag off it is not part of the build, with it on it adds only this package clause.
+package alephium
+
+// ---------------------------------------------------------------- event field decoding (C11)
+
+// What the node promises about a field is its type tag; the value is whatever decimal
+// integer (sign allowed) or hex string it carries.
+//@ pred u256ok(f sdk.Val) = f.ValU256 != nil && f.ValU256.Type == "U256" && parses10(f.ValU256.Value)
+//@ pure u256val(f sdk.Val) = parse10(f.ValU256.Value)
+//@ pred bytevecok(f sdk.Val) = f.ValByteVec != nil && f.ValByteVec.Type == "ByteVec" && hexok(f.ValByteVec.Value)
+//@ pure bytevecval(f sdk.Val) = unhex(f.ValByteVec.Value)
+
+//@ func toU256(f sdk.Val) (n *big.Int, err error)
+//@   props C11
+//@   ensures [ok-iff] err == nil <==> u256ok(f)
+//@   ensures [value] err == nil ==> n != nil && bigOf(n) == u256val(f)
+//@   modifies fresh lib:big.Int.v
+//@   nopanic
+
+//@ func toUint64(f sdk.Val) (r *uint64, err error)
+//@   props C11
+//@   ensures [accept-iff-fits] err == nil <==> u256ok(f) && 0 <= u256val(f) && u256val(f) <= 18446744073709551615
+//@   ensures [exact] err == nil ==> r != nil && *r == u256val(f)
+//@   modifies fresh lib:big.Int.v, fresh cell:uint64
+//@   nopanic
+
+//@ func toUint16(f sdk.Val) (r *uint16, err error)
+//@   props C11
+//@   ensures [accept-iff-fits] err == nil <==> u256ok(f) && 0 <= u256val(f) && u256val(f) <= 65535
+//@   ensures [exact] err == nil ==> r != nil && *r == u256val(f)
+//@   modifies fresh lib:big.Int.v, fresh cell:uint16
+//@   nopanic
+//@   witness val = u256val(f)
+//@   witness ok = u256ok(f)
+//@   replay alephium_toUint.go.tmpl
+
+//@ func toUint8(f sdk.Val) (r *uint8, err error)
+//@   props C11
+//@   ensures [accept-iff-fits] err == nil <==> u256ok(f) && 0 <= u256val(f) && u256val(f) <= 255
+//@   ensures [exact] err == nil ==> r != nil && *r == u256val(f)
+//@   modifies fresh lib:big.Int.v, fresh cell:uint8
+//@   nopanic
+//@   witness val = u256val(f)
+//@   witness ok = u256ok(f)
+//@   replay alephium_toUint.go.tmpl
+
+//@ func toByteVec(f sdk.Val) (b []byte, err error)
+//@   props C11
+//@   ensures [ok-iff] err == nil <==> bytevecok(f)
+//@   ensures [value] err == nil ==> b == bytevecval(f)
+//@   nopanic
+
+//@ func toByte32(f sdk.Val) (r *Byte32, err error)
+//@   props C11
+//@   ensures [ok-iff] err == nil <==> bytevecok(f) && len(bytevecval(f)) == 32
+//@   ensures [value] err == nil ==> r != nil && (forall i in 0..32 :: at32(*r, i) == bytevecval(f)[i])
+//@   modifies fresh cell:Byte32
+//@   nopanic
